@@ -148,24 +148,26 @@ def c_alias(P):
     P.cover("alias")
 
 
-@contract("C11", "class.removed_base", [DF + "_class_incompatibilities"], floor=2, replay="replay_edit_scripts")
+@contract("C11", "class.removed_base", [DF + "_class_incompatibilities"], floor=3, replay="replay_edit_scripts", tier="BS",
+          note="base lists of 0..2 entries on either side; which bases are equal is symbolic")
 def c_class(P):
+    """A base class is removed when it is no longer among the bases of the new class -- whether or not another base was added in its place; that, and only
+    that, is reported as a removed base (re-ordering the same bases is not); the members of the two classes are compared in every case."""
     H = Heap(P)
     breakage_hook(P)
     old, new = H.obj("old", ["Class"]), H.obj("new", ["Class"])
-    f1, f2 = z3.Function("old_base", IntS, IntS), z3.Function("new_base", IntS, IntS)
-    ob = sym_seq(P, "old_bases", lambda i: Opaque("base", f1(i)))
-    nb = sym_seq(P, "new_bases", lambda i: Opaque("base", f2(i)))
+    n_old, n_new = z3.Int("n_old_bases"), z3.Int("n_new_bases")
+    P.assume(z3.And(n_old >= 0, n_old <= 2, n_new >= 0, n_new <= 2))
+    lo = next(k for k in range(3) if P.branch(n_old == k) or k == 2)
+    ln = next(k for k in range(3) if P.branch(n_new == k) or k == 2)
+    # a base expression is identified by an integer: equal integers = the same base (expressions compare structurally)
+    ob = [SInt(z3.Int(f"old_base_{i}")) for i in range(lo)]
+    nb = [SInt(z3.Int(f"new_base_{i}")) for i in range(ln)]
+    if lo == 2:
+        P.assume(ob[0].z != ob[1].z)        # a class cannot list the same base twice
+    if ln == 2:
+        P.assume(nb[0].z != nb[1].z)
     old.fields["bases"], new.fields["bases"] = ob, nb
-    eqv = z3.Bool("bases_lists_equal")
-    orig_eq = P.eq
-
-    def eq(a, b):
-        if (a is ob and b is nb) or (a is nb and b is ob):
-            P.assume(z3.Implies(eqv, zint(ob.len) == zint(nb.len)))
-            return eqv
-        return orig_eq(a, b)
-    P.eq = eq
     calls = []
     P.opaque_hooks[DF + "_member_incompatibilities"] = lambda P_, a, k: (calls.append(a), [Opaque("delegated")])[1]
     kind, res = outcome(P, lambda: call(P, DF + "_class_incompatibilities", old, new, seen_paths=models.SymSet()))
@@ -174,9 +176,10 @@ def c_class(P):
         return
     items = list(P.to_seq(res))
     cl = classes(items)
-    fewer = zint(nb.len) < zint(ob.len)
-    P.prove("removing_a_base_class_is_always_reported", z3.Implies(fewer, "ClassRemovedBaseBreakage" in cl), items=str(cl))
-    P.prove("base_breakage_only_when_bases_were_removed", z3.Implies("ClassRemovedBaseBreakage" in cl, fewer))
+    removed = z3.Or(*[z3.And(*[o.z != n.z for n in nb]) for o in ob]) if ob else z3.BoolVal(False)
+    reported = "ClassRemovedBaseBreakage" in cl
+    P.prove("removing_a_base_class_is_always_reported", z3.Implies(removed, reported), items=str(cl))
+    P.prove("base_breakage_only_when_a_base_was_removed", z3.Implies(z3.BoolVal(reported), removed))
     P.prove("members_are_always_compared", len(calls) == 1 and calls[0][0] is old and calls[0][1] is new)
     P.cover("class")
 
